@@ -1,4 +1,4 @@
-import CalicoVerif.Proofs.C31ClosedStep
+import CalicoVerif.Proofs.C31Total
 /-!
 C31 — Per-workload policy sync streams are complete, minimal and ordered.
 Property theorems only.  Definitions of the statement: `Proofs/C31Spec.lean`
@@ -12,8 +12,9 @@ All four clauses of the property are proved over WHOLE histories:
 * `stream_closed` — ordered: after EVERY prefix of EVERY stream the client is referentially closed (it never
   holds an endpoint naming a policy/profile, or a policy/profile naming an IP set, that is not there).
 * `nothing_after_close`, `leave_closes` — nothing is sent to a workload after it leaves (no contract needed).
-`Valid` asks that the history respects `Pre` at every step and that the Processor does not panic; outside
-`Pre` the real code panics exactly where the model returns `none` (checked by correspondence).
+All three are stated over `Respects` histories (the contract `Pre` holds before every step); `contract_no_panic`
+proves that such a history never makes the Processor panic.  Outside `Pre` the real code panics exactly where the
+model returns `none` (checked by correspondence).
 -/
 namespace CalicoVerif.C31
 
@@ -118,7 +119,7 @@ for every workload that is joined at the end: its stream — ALL the messages ev
 applied in order by the client — yields EXACTLY its own endpoint (if the Processor knows it), the latest
 versions of exactly the policies and profiles that endpoint lists, the latest members of exactly the IP sets
 those name, every service account and namespace in its latest version, and the in-sync flag; nothing else. -/
-theorem stream_complete (ops : List Op) (p : Proc) (evs : List Ev) (h : Valid Proc.init ops p evs)
+theorem stream_complete_of_valid (ops : List Op) (p : Proc) (evs : List Ev) (h : Valid Proc.init ops p evs)
     (w c : Nat) (ei : EpInfo) (hg : p.eps.get w = some ei) (ho : ei.output = some c) :
     Complete p w ei.ep (viewOf evs c) := by
   have hi : Inv p evs := by simpa using valid_inv inv_init h
@@ -136,10 +137,38 @@ every channel `c` (joined, left or replaced) and every `k`: after the first `k` 
 client is referentially closed — its endpoint's policies and profiles are present and so is every IP set a
 present policy or profile names.  So IP sets arrive before the policies that name them, policies before the
 endpoint that lists them, and removals only after nothing present refers to what is removed. -/
-theorem stream_closed (ops : List Op) (p : Proc) (evs : List Ev) (h : Valid Proc.init ops p evs) (c k : Nat) :
+theorem stream_closed_of_valid (ops : List Op) (p : Proc) (evs : List Ev) (h : Valid Proc.init ops p evs) (c k : Nat) :
     Closed (applyMsgs View.empty ((msgsOf evs c).take k)) := by
   have hca : ClosedAll evs := by simpa using valid_closedAll inv_init closedAll_nil h
   exact closedAlong_take (hca c) k
+
+/-! ### over every history that respects the calculation graph's contract -/
+
+/-- **contract_no_panic.**  A history that respects the contract (`Respects`: `Pre` holds before every step,
+whatever states the earlier steps led to) never makes the Processor panic: the whole history runs. -/
+theorem contract_no_panic (ops : List Op) (h : Respects Proc.init ops) :
+    ∃ p evs, run Proc.init ops = some (p, evs) ∧ Valid Proc.init ops p evs := by
+  obtain ⟨p, evs, hv⟩ := respects_valid inv_init (fun kv hkv => by simp [Proc.init] at hkv) h
+  exact ⟨p, evs, valid_run hv, hv⟩
+
+/-- **stream_complete (+ minimal), full statement.**  For every history of dataplane updates, joins and leaves
+that respects the calculation graph's contract, the Processor runs it to a state `p` with events `evs`, and every
+workload joined at the end holds — after applying ALL messages ever sent on its channel, in order — exactly its
+own endpoint, the latest versions of exactly the policies/profiles it lists and of exactly the IP sets those
+name, every service account and namespace, and the in-sync flag. -/
+theorem stream_complete (ops : List Op) (h : Respects Proc.init ops) :
+    ∃ p evs, run Proc.init ops = some (p, evs) ∧
+      ∀ w c ei, p.eps.get w = some ei → ei.output = some c → Complete p w ei.ep (viewOf evs c) := by
+  obtain ⟨p, evs, hr, hv⟩ := contract_no_panic ops h
+  exact ⟨p, evs, hr, fun w c ei hg ho => stream_complete_of_valid ops p evs hv w c ei hg ho⟩
+
+/-- **stream_closed, full statement.**  For every contract-respecting history, every channel and every prefix
+of its stream, the client is referentially closed after that prefix. -/
+theorem stream_closed (ops : List Op) (h : Respects Proc.init ops) :
+    ∃ p evs, run Proc.init ops = some (p, evs) ∧
+      ∀ c k, Closed (applyMsgs View.empty ((msgsOf evs c).take k)) := by
+  obtain ⟨p, evs, hr, hv⟩ := contract_no_panic ops h
+  exact ⟨p, evs, hr, fun c k => stream_closed_of_valid ops p evs hv c k⟩
 
 /-! ### non-vacuity of `Valid` -/
 
@@ -177,6 +206,16 @@ example : (run Proc.init demoOps).map (·.2) = some
       (0, some (Msg.epUpd 0 ⟨1, [⟨0, [1], [1]⟩], []⟩)), (0, some (Msg.saUpd 1 3)), (0, none)] := by
   decide +kernel
 
+theorem respects_of_validB {p : Proc} {ops : List Op} (h : validB p ops = true) : Respects p ops := by
+  induction ops generalizing p with
+  | nil => exact Respects.nil p
+  | cons op ops ih =>
+    simp only [validB, Bool.and_eq_true, decide_eq_true_eq] at h
+    refine Respects.cons h.1 (fun p' evs hs => ?_)
+    have h2 := h.2
+    simp only [hs] at h2
+    exact ih h2
+
 /-- a richer contract-respecting history: join before the endpoint is known, policy and profile updates that
 add and drop IP sets, a delta, an endpoint update dropping a policy, service accounts, in-sync, re-join, leave -/
 def validOps : List Op :=
@@ -186,6 +225,7 @@ def validOps : List Op :=
 
 /-- `stream_complete` / `stream_closed` are not vacuous: the histories above are `Valid` -/
 example : ∃ p evs, Valid Proc.init validOps p evs := valid_of_validB (by decide +kernel)
+example : Respects Proc.init validOps := respects_of_validB (by decide +kernel)
 example : ∃ p evs, Valid Proc.init demoOps p evs := valid_of_validB (by decide +kernel)
 
 /-- `nothing_after_close` is not vacuous: the demo history is panic-free and closes channel 0. -/
